@@ -131,6 +131,15 @@ VF_NOSAN static void gen_adversarial(std::vector<u64> &out, int tier, u64 seed) 
         int rad = tier ? 400 : 120;
         for (int d = -rad; d <= rad; ++d) { u128 v = c + d; if (d < 0) v = c - (u128)(-d); if (v >= 2 && fits(v)) out.push_back((u64)v); }
     }
+    // k * 2^j +- 1 for small odd k: n - 1 or n + 1 has exactly j trailing zero bits (the decompositions n - 1 = 2^s d of
+    // Miller-Rabin and n + 1 = 2^s d of the strong Lucas test, for every s)
+    for (int j = 3; j <= 63; ++j) {
+        for (u64 k = 1; k < (tier ? 600u : 200u); k += 2) {
+            u128 c = (u128)k << j;
+            if (!fits(c + 1)) break;
+            out.push_back((u64)(c + 1)); out.push_back((u64)(c - 1));
+        }
+    }
     // primes next to 2^16, 2^31, 2^32, 2^21 (both sides) and their products, squares, cubes
     std::vector<u64> near;
     const u64 anchors[] = {1ull << 16, 1ull << 31, 1ull << 32, 1ull << 21, 1ull << 20, (1ull << 32) + (1ull << 31), 3037000499ull, 2642245ull /* ~cbrt(2^64) */, 65521};
